@@ -68,7 +68,7 @@ CHECKS = {
          'Trusted: the table of Go closures in internal/c19/table.go. Four known findings (json codec vs module on byte_slice and nil; invalid UTF-8 through encoding/json).',
          'E5 enum', '4 C19'),
  'C09': ('model_checking', 'stateless model checking of the implementation: 2-3 concurrent evaluations under the controlled scheduler, every schedule of the lock/access hook points up to a preemption bound, vector-clock happens-before race detection',
-         'Scenarios of 2-3 concurrent risor.Eval calls on separate VMs (distinct receivers and arguments per evaluation, so that shared scratch state shows in the results; values of different dynamic types through any-typed positions; edits of a Go type's attribute map) that meet on one piece of package-level or shared state (Go type registries through globals, field access and proxy method calls; the codec registry incl. registration; a shared importer; one compiled code object on two VMs; two clones of one VM). Package caches are reset before every execution; every schedule with at most 2 (thorough 3) preemptions is explored; a vector-clock detector reports conflicting hooked accesses that are not ordered by locks/spawn/join, and every result must equal the sequential result. The same bodies also run free in a build with the Go race detector (quick 6 rounds, thorough 40).',
+         'Scenarios of 2-3 concurrent risor.Eval calls on separate VMs (distinct receivers and arguments per evaluation, so that shared scratch state shows in the results; values of different dynamic types through any-typed positions; edits of the attribute map of a Go type) that meet on one piece of package-level or shared state (Go type registries through globals, field access and proxy method calls; the codec registry incl. registration; a shared importer; one compiled code object on two VMs; two clones of one VM). Package caches are reset before every execution; every schedule with at most 2 (thorough 3) preemptions is explored; a vector-clock detector reports conflicting hooked accesses that are not ordered by locks/spawn/join, and every result must equal the sequential result. The same bodies also run free in a build with the Go race detector (quick 6 rounds, thorough 40).',
          'Trusted: the access hooks name every package-level map and cache of the anchored files (typeConverters, goTypeRegistry, GoType.converter, codecs, importer code caches); accesses the hooks do not name are only covered by the -race supplement.',
          'E3 dsched', '4 C09'),
  'C10': ('model_checking', 'stateless model checking of the implementation: controlled scheduler over the hooked goroutines, DFS over all schedules up to a preemption bound, happens-before race detection on hooked accesses',
